@@ -1,13 +1,18 @@
 use std::io::Write;
 
+/// The printer of the default interpreter. There is no printer to write to:
+/// writing is a device I/O error of the program, not a failure of the interpreter.
 pub struct Lpt1Write {}
 
 impl Write for Lpt1Write {
     fn write(&mut self, _buf: &[u8]) -> std::io::Result<usize> {
-        unimplemented!()
+        Err(std::io::Error::new(
+            std::io::ErrorKind::Unsupported,
+            "LPT1 is not available",
+        ))
     }
 
     fn flush(&mut self) -> std::io::Result<()> {
-        unimplemented!()
+        Ok(())
     }
 }
